@@ -59,6 +59,8 @@ func init() {
 // ---- C17 ----
 
 func ruleReloadInPlace(c *Ctx, r *R) {
+	structIdentityRule(c, r)
+	lookupOwnerRule(c, r)
 	m, err := newHndMachine(c)
 	if err != nil {
 		r.undecided("exec", "-", err.Error())
@@ -1500,6 +1502,7 @@ func ruleFuncIsolated(c *Ctx, r *R) {
 // (the first argument, possibly on a later line).  The call node's position is what the
 // CALL instruction and the backtrace entry carry.
 func rulePosNode(c *Ctx, r *R) {
+	posCopyRule(c, r)
 	rows, err := c.symbolTable()
 	if err != nil {
 		r.undecided("symbols", "-", err.Error())
@@ -1607,4 +1610,138 @@ func ruleReloadTypeSlot(c *Ctx, r *R) {
 	}
 	r.check(clears, "type slot cleared", c.Pos(sc.Clause), "compiling a struct or interface declaration clears a compile-time type value left in its slot",
 		"compile(\"type\") writes non-struct types into their global slot at compile time but never clears it when the name becomes a struct or interface: after `type rec int` a reload with `type rec struct{a, b int}` fails to compile (`untyped data`) for ever, because typeFromToken still reads the stale int")
+}
+
+// structIdentityRule: a type object's identity and its method table are what instances and
+// bound method values created before a reload hold on to: nothing overwrites a structT
+// wholesale (`*dst = *cur`) and nothing re-points the Methods field of an existing object.
+func structIdentityRule(c *Ctx, r *R) {
+	n := 0
+	for _, name := range c.FuncNames() {
+		fd := c.funcs[name]
+		if fd.Body == nil {
+			continue
+		}
+		ast.Inspect(fd.Body, func(m ast.Node) bool {
+			as, ok := m.(*ast.AssignStmt)
+			if !ok {
+				return true
+			}
+			for _, l := range as.Lhs {
+				switch x := unparen(l).(type) {
+				case *ast.StarExpr:
+					if isNamed(c.TypeOf(x), "structT") {
+						n++
+						r.fail("overwrite "+name, c.Pos(as), name+" overwrites a struct type object wholesale ("+c.Src(l)+" = ..): the object takes over the other one's method table pointer, so instances and bound methods created before (which hold the old table) keep running the old method bodies after a reload, while new instances run the new ones")
+					}
+				case *ast.SelectorExpr:
+					if x.Sel.Name == "Methods" && isNamed(c.TypeOf(x.X), "structT") {
+						n++
+						r.fail("Methods re-pointed "+name, c.Pos(as), name+" assigns the Methods field of an existing struct object: the method table is shared by pointer between the type and all its instances and must keep its identity")
+					}
+				}
+			}
+			return true
+		})
+	}
+	if n == 0 {
+		r.ok("struct identity", "no wholesale overwrite of a structT and no re-pointing of Methods")
+	}
+}
+
+// lookupOwnerRule: the globals table's storage is touched only by lookup's own methods. A
+// handler that keeps its own copy of the backing slice (`globals := v.globals.data`) goes on
+// reading the old array after a reload made during the call grew the table: frames that were
+// already running see variables at their pre-reload values.
+func lookupOwnerRule(c *Ctx, r *R) {
+	n, bad := 0, 0
+	for _, name := range c.FuncNames() {
+		fd := c.funcs[name]
+		if fd.Body == nil {
+			continue
+		}
+		own := name == "newLookup" || strings.HasPrefix(name, "lookup.")
+		ast.Inspect(fd.Body, func(m ast.Node) bool {
+			sel, ok := m.(*ast.SelectorExpr)
+			if !ok {
+				return true
+			}
+			s := c.Info.Selections[sel]
+			if s == nil || s.Kind() != types.FieldVal {
+				return true
+			}
+			rt := s.Recv()
+			if p, ok := rt.(*types.Pointer); ok {
+				rt = p.Elem()
+			}
+			if !isNamed(rt, "lookup") || sel.Sel.Name != "data" {
+				return true // the value storage is what a reload reallocates
+			}
+			n++
+			if !own {
+				bad++
+				r.fail("lookup."+sel.Sel.Name+" in "+name, c.Pos(sel), name+" reaches into the globals table's storage (lookup."+sel.Sel.Name+") instead of going through Read/Write/Index: a copy of the backing slice taken on entry of exec goes stale when a reload during the call grows the table — frames already running keep reading the old array")
+			}
+			return true
+		})
+	}
+	if bad == 0 {
+		r.ok("globals table ownership", fmt.Sprintf("%d field accesses, all inside lookup's own methods", n))
+	}
+}
+
+// posCopyRule: token.Copy (used for the implicitly repeated expression lists of a const
+// group) yields a node with every field of the original: the copy's instructions are stamped
+// from its Pos, so a copy without Pos reports run-time errors at file "" line 0.
+func posCopyRule(c *Ctx, r *R) {
+	fd := c.Func("token.Copy")
+	if fd == nil {
+		r.undecided("token.Copy", "-", "not found")
+		return
+	}
+	nt := c.NamedType("token")
+	st, _ := nt.Underlying().(*types.Struct)
+	if st == nil {
+		r.undecided("token.Copy", c.Pos(fd), "token is not a struct")
+		return
+	}
+	set := map[string]bool{}
+	ast.Inspect(fd.Body, func(n ast.Node) bool {
+		switch x := n.(type) {
+		case *ast.CompositeLit:
+			if isNamed(c.TypeOf(x), "token") {
+				for _, e := range x.Elts {
+					if kv, ok := e.(*ast.KeyValueExpr); ok {
+						if id, ok := kv.Key.(*ast.Ident); ok {
+							set[id.Name] = true
+						}
+					}
+				}
+			}
+		case *ast.AssignStmt:
+			for _, l := range x.Lhs {
+				if sel, ok := unparen(l).(*ast.SelectorExpr); ok && c.isTokenPtr(c.TypeOf(sel.X)) {
+					set[sel.Sel.Name] = true
+				}
+			}
+		case *ast.StarExpr:
+			// c := *t copies every field
+			if isNamed(c.TypeOf(x), "token") {
+				if _, isAssignRHS := c.Parent(x).(*ast.AssignStmt); isAssignRHS {
+					for i := 0; i < st.NumFields(); i++ {
+						set[st.Field(i).Name()] = true
+					}
+				}
+			}
+		}
+		return true
+	})
+	var missing []string
+	for i := 0; i < st.NumFields(); i++ {
+		if !set[st.Field(i).Name()] {
+			missing = append(missing, st.Field(i).Name())
+		}
+	}
+	r.check(len(missing) == 0, "token.Copy copies every field", c.Pos(fd), "Pos, Symbol, Text and Tokens are all carried over",
+		"token.Copy does not carry over "+strings.Join(missing, ", ")+": the implicitly repeated specs of a const group (`A = f(iota); B; C`) are compiled from copies, so a failure in B's expression is reported as `main.f(...) :0:0` — no file, no line")
 }
